@@ -164,7 +164,13 @@ def build_system(case):
             halves[(item[0], item[1])] = superop(sys_unitary(d, item[2], m))
 
     class PlanSystem(oqupy.System):
+        start_times = None      # the start times for which the library asked for propagators (observation)
+
         def get_propagators(self, dt, start_time, subdiv_limit, epsrel):
+            if self.start_times is None:
+                self.start_times = []
+            self.start_times.append(float(start_time))
+
             def propagators(step):
                 return halves[("h1", step)], halves[("h2", step)]
             return propagators
@@ -295,6 +301,10 @@ def run_case(job):
                                                         control=c_, start_time=start, progress_type="silent", **kw)
         ctrl = build_control(case, dt, start, float_times=variant.get("float_times", False), between=between) \
             if case["ctl"] else None
+        if variant.get("reused") and ctrl is not None:
+            # the Control object (absolute times) has been used before, for a computation starting elsewhere
+            oqupy.compute_dynamics(system, initial_state=rho0, process_tensor=pts if pts else None, control=ctrl,
+                                   start_time=start + variant["reused"] * dt, progress_type="silent", **kw)
         dyn = oqupy.compute_dynamics(system, initial_state=rho0,
                                      process_tensor=pts if pts else None,
                                      control=ctrl, start_time=start, progress_type="silent", **kw)
@@ -303,6 +313,10 @@ def run_case(job):
         return [{"what": "exception", "detail": "%s: %s" % (type(ex).__name__, str(ex)[:200]),
                  "tb": traceback.format_exc()[-400:]}]
     states = np.array(dyn.states)
+    seen = getattr(system, "start_times", None) or []
+    if any(abs(x - start) > 1e-12 for x in seen[-1:]):
+        # a time-dependent system would be sampled at the wrong times
+        return [{"what": "system-propagators-requested-for-wrong-start-time", "expected": start, "observed": seen[-1]}]
     if len(states) != n + 1:
         return [{"what": "length", "expected": n + 1, "observed": len(states)}]
     for r, rec in enumerate(case["recs"]):
